@@ -52,8 +52,12 @@ def owner(a, clause, exc):
 _W = {}
 
 
-def _init(repo, scratch):
+def _init(repo, scratch, tz=None):
     import sys
+    if tz:
+        import time
+        os.environ["TZ"] = tz
+        time.tzset()
     if repo not in sys.path:
         sys.path.insert(0, repo)
     import tinyflux
@@ -126,6 +130,10 @@ def _record(job):
                     events.append(ev)
                     continue
                 store = d.contents()
+                if a["op"] in ("insert", "insert_multiple") and (a.get("p", {}).get("t") == -5 or any(p["t"] == -5 for p in a.get("ps", []))):
+                    # the stamp this call handed out: the newest dynamic rank among the stored times
+                    stamps = [p["t"] for p in store if p["t"] >= th.NOW_BASE]
+                    a = dict(a, now=max(stamps) if stamps else -5)
                 ev = {"a": a, "exc": exc, "res": res, "store": store, "valid": d.valid(),
                       "ix": d.index_obs(store, battery)}
                 if rec is not None:
@@ -292,10 +300,10 @@ def io_obs(d, rec, before, a, tmpdir, dbdir, tmp_before):
         rec.enabled = was
 
 
-def record_all(jobs, nproc=16):
+def record_all(jobs, nproc=16, tz=None):
     scratch = tlc.mkscratch("rec-")
     try:
-        with mp.Pool(nproc, initializer=_init, initargs=(common.REPO, scratch)) as pool:
+        with mp.Pool(nproc, initializer=_init, initargs=(common.REPO, scratch, tz)) as pool:
             return pool.map(_record, jobs, chunksize=max(1, len(jobs) // (nproc * 8)))
     finally:
         shutil.rmtree(scratch, ignore_errors=True)
